@@ -467,6 +467,7 @@ func msgHash(za, msg []byte) (*big.Int, error) {
 
 // ZA = H256(ENTLA || IDA || a || b || xG || yG || xA || yA)
 func ZA(pub *PublicKey, uid []byte) ([]byte, error) {
+	P256Sm2() // the curve parameters below are initialised lazily
 	za := sm3.New()
 	uidLen := len(uid)
 	if uidLen >= 8192 {
